@@ -83,6 +83,8 @@ func vfC15Run(e *vfEnv, r *vfResult, idx int) { //nolint:cyclop,maintidx
 		return
 	}
 	firstTO, alive := 120*time.Millisecond, 150*time.Millisecond
+	canary := newVfCanary()
+	defer canary.close()
 	var mux TCPMux
 	inner := NewTCPMuxDefault(TCPMuxParams{Listener: ln, Logger: vfQuietLogger().NewLogger("ice"), ReadBufferSize: 16,
 		WriteBufferSize: []int{0, 1 << 20}[rng.IntN(2)], FirstStunBindTimeout: firstTO, AliveDurationForConnFromStun: alive})
@@ -390,6 +392,14 @@ func vfC15Run(e *vfEnv, r *vfResult, idx int) { //nolint:cyclop,maintidx
 			continue
 		}
 		if _, registered := conns[res.ufrag]; !registered {
+			continue
+		}
+		if res.err != "" && canary.worst() > firstTO/4 {
+			// this client was cut off, and during this history goroutines of this process were run up to canary.worst()
+			// late: the mux's first-frame deadline (checked by the runtime before every read of handleConn) may have
+			// passed before handleConn got to read what had long arrived
+			r.count("c15_good_clients_not_judged_stalled_process", 1)
+
 			continue
 		}
 		var got []string
